@@ -148,7 +148,7 @@ Theorem leftmost_spec :
     | Some (Some a) => Ok a
     | _ => Err [ELeftmost]
     end.
-Proof. exact StrategiesProofs.leftmost_spec. Qed.
+Proof. exact StrategiesProofs.leftmost_first_limit. Qed.
 Print Assumptions leftmost_spec.
 
 Example leftmost_examples :
